@@ -166,11 +166,33 @@ Theorem C09_segwit_address_roundtrip :
 Proof. exact segwit_address_roundtrip. Qed.
 Print Assumptions C09_segwit_address_roundtrip.
 
-(* P2PKH (t=0) / P2SH (t=1): the address is Base58Check of version byte :: hash, uses only
-   alphabet characters, and decode_base58 returns the hash.  Partial: the first-character
-   dispatch of address_to_script_pubkey / to_address ('1','m','n' / '2','3') for 20-byte
-   hashes is not proved (correspondence + predicate spk_addr only). *)
-Theorem C09_base58_address_payload_partial :
+(* P2PKH (t=0) / P2SH (t=1), 20-byte hash, every network: script -> address -> script through
+   address_to_script_pubkey and through TxOut.to_address.  The first-character dispatch is
+   proved by a bound argument on the base-58 value of the 25-byte payload: version 0x00 gives
+   '1', 0x05 gives '3', 0x6f gives 'm' or 'n', 0xc4 gives '2'. *)
+Theorem C09_base58_address_roundtrip :
+  forall (hash256 : bytes -> bytes),
+  (forall x, length (hash256 x) = 32%nat) -> (forall x, bytes_ok (hash256 x)) ->
+  forall t h net, (t = 0 \/ t = 1) -> bytes_ok h -> length h = 20%nat ->
+  exists a, (if t =? 0 then p2pkh_address hash256 h net else p2sh_address hash256 h net) = Ok a /\
+            address_to_script_pubkey hash256 a = Ok (b58_script t h) /\
+            to_address_spk hash256 a = Ok (b58_script t h).
+Proof. exact base58_address_roundtrip. Qed.
+Print Assumptions C09_base58_address_roundtrip.
+
+Theorem C09_base58_address_injective :
+  forall (hash256 : bytes -> bytes),
+  (forall x, length (hash256 x) = 32%nat) -> (forall x, bytes_ok (hash256 x)) ->
+  forall t1 h1 t2 h2 net a,
+  (t1 = 0 \/ t1 = 1) -> bytes_ok h1 -> length h1 = 20%nat ->
+  (t2 = 0 \/ t2 = 1) -> bytes_ok h2 -> length h2 = 20%nat ->
+  b58_address hash256 t1 h1 net = Ok a -> b58_address hash256 t2 h2 net = Ok a ->
+  b58_script t1 h1 = b58_script t2 h2.
+Proof. exact base58_address_injective. Qed.
+Print Assumptions C09_base58_address_injective.
+
+(* the address uses only alphabet characters and decode_base58 returns the hash (any length) *)
+Theorem C09_base58_address_payload :
   forall (hash256 : bytes -> bytes),
   (forall x, length (hash256 x) = 32%nat) -> (forall x, bytes_ok (hash256 x)) ->
   forall t h net, (t = 0 \/ t = 1) -> bytes_ok h ->
@@ -178,7 +200,7 @@ Theorem C09_base58_address_payload_partial :
             Forall (fun c => In c b58_alphabet) a /\
             decode_base58 hash256 a = Ok h.
 Proof. exact base58_address_payload. Qed.
-Print Assumptions C09_base58_address_payload_partial.
+Print Assumptions C09_base58_address_payload.
 
 (* WIF: compressed/uncompressed x mainnet/other.  parse() cannot tell testnet, signet and
    regtest apart (all use 0xef), as its docstring says: it reports "not mainnet". *)
